@@ -76,6 +76,12 @@ def mkDirection (n : Nat) : Zerofpr.Direction DirSt Float where
   changedGamma d g og := (popDir (skipHasInit d) "dchanged" "ss" "" [[fmtF g], [fmtF og]]).1
   reset d := (popDir (skipHasInit d) "dreset" "" "" []).1
 
+/-- `kvFlt` that also accepts the protocol's `nan` token for a scalar parameter -/
+def kvFltN (m : KV) (k : String) (d : Float) : Float :=
+  match m.get? k with
+  | some "nan" => 0.0 / 0.0
+  | _ => kvFlt m k d
+
 def statusStr (s : SolverStatus) : String := (reprStr s).replace "Alpaqa.Gen.SolverStatus." ""
 
 def fmtCb (c : Zerofpr.Callback Float) : String :=
@@ -96,15 +102,15 @@ def runZerofpr (kv : KV) (evs : List Ev) : String :=
   let crit := (PANOCStopCrit.all[kvNat kv "crit"]?).getD .ApproxKKT
   let eps0 := 10 * 2.220446049250313e-16
   let pr : Zerofpr.Params Float := {
-    L0 := kvFlt kv "L0" 0, lipEps := kvFlt kv "lipeps" 1e-6, lipDelta := kvFlt kv "lipdelta" 1e-12,
-    LgammaFactor := kvFlt kv "Lgf" 0.95, maxIter := kvNat kv "maxiter" 100,
-    minLsCoef := kvFlt kv "minls" (1.0/256.0),
-    forceLinesearch := kvNat kv "force" != 0, lsStrictness := kvFlt kv "beta" 0.95,
-    Lmin := kvFlt kv "Lmin" 1e-5, Lmax := kvFlt kv "Lmax" 1e20, stopCrit := crit,
-    maxNoProgress := kvNat kv "maxnp" 10, qubTol := kvFlt kv "qubtol" eps0,
-    lsTol := kvFlt kv "lstol" eps0, updateDirInCandidate := kvNat kv "updcand" != 0,
+    L0 := kvFltN kv "L0" 0, lipEps := kvFltN kv "lipeps" 1e-6, lipDelta := kvFltN kv "lipdelta" 1e-12,
+    LgammaFactor := kvFltN kv "Lgf" 0.95, maxIter := kvNat kv "maxiter" 100,
+    minLsCoef := kvFltN kv "minls" (1.0/256.0),
+    forceLinesearch := kvNat kv "force" != 0, lsStrictness := kvFltN kv "beta" 0.95,
+    Lmin := kvFltN kv "Lmin" 1e-5, Lmax := kvFltN kv "Lmax" 1e20, stopCrit := crit,
+    maxNoProgress := kvNat kv "maxnp" 10, qubTol := kvFltN kv "qubtol" eps0,
+    lsTol := kvFltN kv "lstol" eps0, updateDirInCandidate := kvNat kv "updcand" != 0,
     recomputeLastProx := kvNat kv "recomp" != 0, updateDirFromProxStep := kvNat kv "updprox" != 0,
-    alwaysOverwrite := kvNat kv "overwrite" 1 != 0, tolerance := kvFlt kv "tol" 1e-8 }
+    alwaysOverwrite := kvNat kv "overwrite" 1 != 0, tolerance := kvFltN kv "tol" 1e-8 }
   let stopTick := match evs.find? (·.name == "stoptick") with
     | some e => (e.toks.head?.bind String.toNat?).getD 0
     | none => 0
@@ -112,7 +118,7 @@ def runZerofpr (kv : KV) (evs : List Ev) : String :=
   let oot := kvNat kv "oot" != 0
   let errz0 := List.replicate m (-12345.0)
   let x0 := kvVec kv "x0"; let y0 := kvVec kv "y0"; let sig := kvVec kv "Sig"
-  let r := Zerofpr.run P (mkDirection n) d0 pr stop oot x0 y0 sig errz0 (nanV n) (0.0/0.0)
+  let r := Zerofpr.run P (mkDirection n) d0 pr stop oot x0 y0 sig errz0 (nanV n) (0.0/0.0) (1.0/0.0)
   let s := r.stats
   let untouched := fmtV r.x == fmtV x0 && fmtV r.y == fmtV y0
   let sLine := s!"S {statusStr s.status} {s.iterations} {fmtF s.eps} {s.lsFailures} {s.lsBacktracks} " ++
